@@ -230,6 +230,48 @@ Proof. vm_compute. reflexivity. Qed.
 Lemma leaf_number_nonempty : (5000 <=? length src_leaf_number)%nat = true.
 Proof. vm_compute. reflexivity. Qed.
 
+
+(* ---------------------------------------------------------------- parser: the object functions, executed *)
+(* object::StartFragment::parse_in and object::ContinueFragment::parse_in, RUN by the translator under the strict and the
+   flexible option record (first item of an input word: 0 or 3); `Key::parse_in` is the string scanner of string.rs run on
+   the same stub.  Outcome: Ok -> [0; kind (1 = Empty / End); index; position; entry index; n; k1 .. kn] ++ code map; errors
+   as for the string scanner. *)
+Definition ct_err_outcome (e : perr) : list N :=
+  match e with
+  | EUnexpected p c => [1; p; match c with Some c => c + 1 | None => 0 end]
+  | EStream p => [5; p]
+  | EMissingLow s e hi => [6; s; e; hi]
+  | EInvalidCodePoint s e cp => [7; s; e; cp]
+  | EInvalidLow s e hi cp => [8; s; e; hi; cp]
+  | EInvalidUtf8 _ => [2]
+  end.
+Definition ct_object_start_outcome (r : res (ostart * N)) : list N :=
+  match r with
+  | Ok ((OEmpty, i), st) => [0; 1; i; pos st; 0; 0] ++ ct_flat (cm st)
+  | Ok ((ONonEmpty k e, i), st) => [0; 0; i; pos st; e; N.of_nat (length k)] ++ k ++ ct_flat (cm st)
+  | Err e => ct_err_outcome e
+  | Panic _ => [3]
+  | OutOfFuel => [4]
+  end.
+Definition ct_object_continue_outcome (r : res (option (key * N))) : list N :=
+  match r with
+  | Ok (None, st) => [0; 1; 0; pos st; 0; 0] ++ ct_flat (cm st)
+  | Ok (Some (k, e), st) => [0; 0; 0; pos st; e; N.of_nat (length k)] ++ k ++ ct_flat (cm st)
+  | Err e => ct_err_outcome e
+  | Panic _ => [3]
+  | OutOfFuel => [4]
+  end.
+Definition ct_object_on {A} (out : res A -> list N) (f : opts -> pstate -> res A) (table : list (list N * list N)) :=
+  map (fun w => (w, match w with o :: cs => out (f (ct_opts o) (ct_state cs)) | [] => [] end)) (map fst table).
+Theorem tie_leaf_object_start : src_leaf_object_start = ct_object_on ct_object_start_outcome object_start src_leaf_object_start.
+Proof. vm_compute. reflexivity. Qed.
+Theorem tie_leaf_object_continue :
+  src_leaf_object_continue = ct_object_on ct_object_continue_outcome (fun o => object_continue o 0) src_leaf_object_continue.
+Proof. vm_compute. reflexivity. Qed.
+Lemma leaf_object_nonempty :
+  (2500 <=? length src_leaf_object_start)%nat = true /\ (2500 <=? length src_leaf_object_continue)%nat = true.
+Proof. vm_compute. split; reflexivity. Qed.
+
 (* ---------------------------------------------------------------- printer: presets *)
 
 Definition cval_of_indent (i : indent) : cval :=
@@ -413,6 +455,12 @@ Theorem number_parser_from_source :
   src_leaf_number = ct_number_on src_leaf_number /\ (5000 <=? length src_leaf_number)%nat = true.
 Proof. exact (conj tie_leaf_number leaf_number_nonempty). Qed.
 
+Theorem object_functions_from_source :
+  src_leaf_object_start = ct_object_on ct_object_start_outcome object_start src_leaf_object_start
+  /\ src_leaf_object_continue = ct_object_on ct_object_continue_outcome (fun o => object_continue o 0) src_leaf_object_continue
+  /\ ((2500 <=? length src_leaf_object_start)%nat = true /\ (2500 <=? length src_leaf_object_continue)%nat = true).
+Proof. exact (conj tie_leaf_object_start (conj tie_leaf_object_continue leaf_object_nonempty)). Qed.
+
 Theorem control_from_source :
   src_is_control = set_of Parser.is_control char_domain /\ (forall c, 256 <= c -> Parser.is_control c = false).
 Proof. exact (conj tie_is_control is_control_above). Qed.
@@ -476,6 +524,7 @@ Print Assumptions number_automaton_from_source.
 Print Assumptions leaf_parsers_from_source.
 Print Assumptions string_scanner_from_source.
 Print Assumptions number_parser_from_source.
+Print Assumptions object_functions_from_source.
 Print Assumptions parser_escapes_from_source.
 Print Assumptions surrogate_pair_from_source.
 Print Assumptions presets_from_source.
